@@ -43,6 +43,11 @@ func WithHistogramDataPointAttributes(attrs Map) func(HistogramDataPoint) {
 func WithHistogramDataPointStatistics(values []float64) func(HistogramDataPoint) {
 	return func(hdp HistogramDataPoint) {
 		hdp.raw.Sum = new(float64)
+		if len(values) == 0 {
+			// A timer which is kept between flushes without receiving values has none:
+			// report an empty data point (count and sum 0, no min/max).
+			return
+		}
 		hdp.raw.Min = &values[0]
 		hdp.raw.Max = &values[len(values)-1]
 		hdp.raw.Count = uint64(len(values))
